@@ -44,7 +44,7 @@ fn small() -> impl Strategy<Value = CallSet> {
 }
 
 fn large() -> impl Strategy<Value = CallSet> {
-    (120usize..=500, prop::collection::vec((prop::collection::vec(gt_strategy(false, 8, 4), 500), 1u64..=900, any::<u8>()), 5..=60)).prop_map(|(n, recs)| {
+    (120usize..=400, prop::collection::vec((prop::collection::vec(gt_strategy(false, 8, 4), 400), 1u64..=900, any::<u8>()), 5..=45)).prop_map(|(n, recs)| {
         let records: Vec<Record> = recs
             .into_iter()
             .map(|(gts, pos, f)| Record {
@@ -109,9 +109,11 @@ fn strategy() -> impl Strategy<Value = Case> {
 }
 
 fn eval(ctx: &Ctx, case: &Case) -> Verdict {
+    let t0 = std::time::Instant::now();
     let dir = ctx.worker_dir(crate::engine::worker_id());
     let containers = [Container::Vcf, Container::VcfGz(case.vcf_layout.clone()), Container::Bcf(case.bcf_layout.clone()), Container::BcfRaw];
     let rendered: Vec<(Vec<u8>, usize)> = containers.iter().map(|c| render(&case.cs, c)).collect();
+    let t_render = t0.elapsed().as_secs_f64();
     let base_opts = CreateOpts {
         map: Some(case.map.clone()),
         ..Default::default()
@@ -170,6 +172,11 @@ fn eval(ctx: &Ctx, case: &Case) -> Verdict {
     let (r, _) = reference.as_ref().unwrap();
     let mut pass = Pass::new().nontrivial(blocks >= 3);
     pass.count("executions", executions);
+    pass.count("ms-render", (t_render * 1000.0) as u64);
+    pass.count("ms-total", (t0.elapsed().as_secs_f64() * 1000.0) as u64);
+    if t0.elapsed().as_secs_f64() > 3.0 {
+        pass.add_label("slow>3s");
+    }
     pass.add_label(if r.ok() { "run-succeeds" } else { "run-fails" });
     pass.add_label(if blocks >= 50 { "blocks>=50" } else if blocks >= 3 { "blocks>=3" } else { "blocks<3" });
     if rendered[1].0.len() > 70_000 || rendered[2].0.len() > 70_000 {
@@ -185,8 +192,8 @@ fn eval(ctx: &Ctx, case: &Case) -> Verdict {
 pub fn check(ctx: &Ctx) -> Check {
     let parts: Vec<Box<dyn Part>> = vec![Box::new(RandomPart {
         name: "containers-transports-threads",
-        rule: "diploid call sets (incl. large cohorts of 120..500 samples so that 64 KiB blocks occur, and ~12% call sets that make the run fail) rendered as vcf / bgzf-vcf / bgzf-bcf / raw bcf with generated BGZF layouts (one line per block, 1-byte blocks, cuts inside lines and BCF records, 64 KiB payloads, stored/compressed, empty blocks first/middle/last, with and without EOF marker) x {path, stdin from file, stdin from pipe} x --threads from {1,2,3,4,8,16} x repeated executions; >=3 populations of unequal size: ALL executions of a case must have byte-identical stdout and equal exit status (~20 executions per case); non-trivial = an input of >=3 BGZF blocks",
-        cases: ctx.tier.pick(160, 3000),
+        rule: "diploid call sets (incl. large cohorts of 120..400 samples so that 64 KiB blocks occur, and ~12% call sets that make the run fail) rendered as vcf / bgzf-vcf / bgzf-bcf / raw bcf with generated BGZF layouts (one line per block, 1-byte blocks, cuts inside lines and BCF records, 64 KiB payloads, stored/compressed, empty blocks first/middle/last, with and without EOF marker) x {path, stdin from file, stdin from pipe} x --threads from {1,2,3,4,8,16} x repeated executions; >=3 populations of unequal size: ALL executions of a case must have byte-identical stdout and equal exit status (~20 executions per case); non-trivial = an input of >=3 BGZF blocks",
+        cases: ctx.tier.pick(120, 3000),
         strategy: Box::new(|| strategy().boxed()),
         eval: Box::new(eval),
     })];
